@@ -31,14 +31,18 @@ def main():
         dst = "%s/seeded/%s-%s" % (VERIF, pid, k)
     os.makedirs(dst, exist_ok=True)
     prev = {}
+    keep = {}
     if os.path.exists(os.path.join(dst, "meta.json")):
         try:
-            prev = json.load(open(os.path.join(dst, "meta.json"))).get("verif", {})
+            old = json.load(open(os.path.join(dst, "meta.json")))
+            prev = old.get("verif", {})
+            keep = {k_: v_ for k_, v_ in old.items() if k_.startswith("verif_")}
         except Exception:
             prev = {}
     for f in os.listdir(src):
         shutil.copy(os.path.join(src, f), os.path.join(dst, f))
     meta = json.load(open(os.path.join(dst, "meta.json")))
+    meta.update(keep)
     demo = "demo.sh" if os.path.exists(os.path.join(dst, "demo.sh")) else None
     out = {"confirmed": {}, "checks": {}}
     if "--skip-confirm" not in sys.argv and os.path.isdir(wt):
@@ -96,7 +100,17 @@ def main():
         for ep, text in saved.items():
             open(ep, "w").write(text)
         shutil.rmtree(os.path.join(VERIF, "replays", "tmp"), ignore_errors=True)
-    meta["verif"] = out
+    key = os.environ.get("SEEDRUN_KEY")
+    if key:
+        # a re-run under another workload seed: kept next to the recorded result, not instead of it
+        prev2 = dict(prev)
+        prev2[key] = out["checks"]
+        meta["verif"] = prev2
+    else:
+        for k_, v_ in prev.items():
+            if k_.startswith("checks_seed"):
+                out[k_] = v_
+        meta["verif"] = out
     json.dump(meta, open(os.path.join(dst, "meta.json"), "w"), indent=1)
     print(json.dumps(out["confirmed"])[:300])
 
